@@ -298,6 +298,7 @@ def run(ctx):
             else:
                 viol.append({"what": "outside the dialect (%s): the reader neither raises nor yields the triples of the document" % name,
                              "doc": text, "got": r[1], "rdflib": ref})
+    base.fragment_s_tie(ctx, dis, stats, ['remove_corners', 'decide_literal_type'])
     return base.std_result(ctx, [d[0] for d in docs], viol, dis, base.known_lines(kf, hit), stats, nontriv, [],
                            "documents rendered from abstract statement groups (';' and ',' abbreviations, 'a' vs rdf:type, prefixed / <absolute> / "
                            "<relative-to-@base> IRIs, blank nodes, literals with escapes and '#', ';', ',', '.' inside, language tags, datatypes as <IRI> / "
